@@ -17,16 +17,16 @@ import satenc_ov_gen
 
 LEVEL = "proof"
 JUDGE_VARS = 22
-EXTRACT = ("From Coq Require Import Extraction ExtrOcamlBasic.\nFrom ORatio Require Import smt.SatEnc smt.Ov.\n"
+EXTRACT = ("From Coq Require Import Extraction ExtrOcamlBasic.\nFrom ORatio Require Import smt.SatEnc smt.Ov smt.SatKeys.\n"
            "Extraction Language OCaml.\nSet Extraction Optimize.\n"
            "Extraction \"satenc_model.ml\" x_step init_state x_new_clause ov_init x_ov_new_var x_ov_new_eq x_ov_value x_ov_allows "
-           "x_ov_assume x_ov_pop x_ov_propagate x_ov_new_var_lits value.\n")
+           "x_ov_assume x_ov_pop x_ov_propagate x_ov_new_var_lits value str_key str_ov_key.\n")
 OPNAME = {"N": "new_var", "L": "new_var_lits", "Q": "new_eq", "C": "new_clause", "A": "assume", "O": "pop"}
 
 
 def build():
     hexe, hlog = vlib.cxx_build("h_ov", "h_ov.cpp", vlib.SMT_SRC, vlib.SMT_INC, defines=("NDEBUG",))
-    oexe, olog = vlib.ocaml_build("ov", ["smt/SatEnc.vo", "smt/Ov.vo"], EXTRACT, [("satenc_io.ml", None), ("ov_main.ml", None)])
+    oexe, olog = vlib.ocaml_build("ov", ["smt/SatEnc.vo", "smt/Ov.vo", "smt/SatKeys.vo"], EXTRACT, [("satenc_io.ml", None), ("ov_main.ml", None)])
     return hexe, hlog, oexe, olog
 
 
